@@ -360,178 +360,31 @@ def _c07_out_kind(o):
 
 
 PROPS["C07"] = dict(
-    level_text="WORK IN PROGRESS",
-    level_note="WORK IN PROGRESS",
+    level_text="Theorems (Props/C07.lean; invariants in Proofs/Pager.lean) about a transition system of the pager - producer loop with its program counter, capacity-1 channel, consumer with current page and row cursor, first page fetched on the caller's task - prove for EVERY server script (any page sizes incl. empty pages and an empty last page, any paging-state bytes), EVERY sequence of per-attempt outcomes (success, retried failure, final failure, ignored error) and EVERY interleaving of producer steps, polls and the drop of the pager: rows_exact_prefix / rows_exact (the rows handed out are always a prefix of the pages' rows in server order; if the stream ended with None without an error and no IgnoreWriteError decision was taken it handed out all of them - accounting invariant delivered ++ current page ++ channel ++ page held by send ++ pages not yet fetched ++ pages given up = all rows); paging_state_chain / paging_requests_in_order (every request for page k, first attempt or retry, before or after a drop, carries the state returned with page k-1, none for k=0; requests are in page order); error_after_earlier_rows / first_page_error / error_at_most_once / nothing_after_end_or_error (a non-retried failure on page k surfaces once, after exactly the rows of pages < k, then the stream ends; a first-page failure is the constructor's error); terminates_poll / bounded_work / no_deadlock_reachable / terminates / eager_consumer_gets_everything (no pending page and producer done -> None; a measure strictly decreases on every effective step; no deadlock; under round-robin scheduling the stream ends within measure(init) rounds); prefetch_bound / early_drop_stops_producer (at most 2 pages prefetched; after a drop nothing is delivered or enqueued and only the page request in flight is finished); conn_rows_exact (the single-connection pager needs no side condition); ignore_truncates_silently (an IgnoreWriteError decision ends the stream without error - why rows_exact excludes it). The model is tied to pager.rs by a differential run of the REAL pagers against a scripted CQL server over loopback TCP: Connection::execute_iter (SingleConnectionPagingExecutor) and Session::execute_iter (PagingExecutor, default retry policy, one-node mock cluster), with an oracle computed from the script and the frames the server received.",
+    level_note="Trusted: Lean kernel + {propext, Classical.choice, Quot.sound}; hand-written model Model/Pager.lean (tie = differential harness: real QueryPager/TypedRowStream over a real Connection / Session against harness/src/mocknode.rs on a current-thread tokio runtime); tokio mpsc(1) semantics (one buffered item, send waits, receiver drop fails send and discards the buffer, sender drop lets the receiver drain then see None) and task scheduling are represented by arbitrary interleaving of atomic steps - real wake-ups are exercised only by the differential run; the retry policy is represented by per-attempt outcomes (C06 owns its model); drop cases are checked as membership (request log between the laziest and the most eager producer). Only prepared statements are driven (Session::query_iter's unprepared pager shares PagingExecutor::query_remaining_pages but its page_query closure is not exercised); node switches need a multi-node mock cluster and are not in the differential run (the chain theorem covers them: the state does not depend on the target).",
     lean_modules=["ScyllaVerif.Props.C07"],
-    rule="case = (skip-metadata flag, consumer behaviour, page script: rows per page, paging state returned, faults injected before the page); distinct case lines whose implementation output shows at least two page requests count as non-trivial",
+    rule="case = (pager kind pg|sess, skip-metadata flag, consumer eager|slow|drop after k rows, page script: rows per page, paging state returned, faults injected before the page is served); distinct case lines whose implementation output shows at least two page requests count as non-trivial",
     trivial=lambda c, o: "," not in o.split("log=")[-1],
     out_kind=_c07_out_kind,
-    trusted=[],
-    assumptions=[],
-    partial=[],
+    trusted=[
+        "Model/Pager.lean transcribes pager.rs:199-253 (query_remaining_pages), 257-296 + 372-459 (first page), 461-496 (process_next_page), 550-684 (SingleConnectionPagingExecutor: fetch_one_page, page_from_outcome, fetch_remaining_pages), 718-791 (QueryPager::next, poll_fill_page, poll_next_page), 1089-1163 (new_for_connection_execute_iter), 872-915/1015-1083 (channel creation, worker spawn); one atomic step per producer await point (one fetch attempt, one send) and per consumer poll; the producer's return and the drop of its Sender are one step with its last send",
+        "connAttempts / sessAttempts (Model/Pager.lean) map the harness's server faults to attempt outcomes: connection.rs:1046-1145 (one transparent re-execute after UNPREPARED), FallthroughRetryPolicy for the single-connection pager; DefaultRetryPolicy on a one-node plan for the session pager (digest-only ReadTimeout retried once per page on the same target, everything else final because RetryNextTarget exhausts the plan); a non-Rows first response of the session pager = empty stream (pager.rs:436-454)",
+        "tokio::sync::mpsc::channel(1): FIFO of capacity 1, send suspends when full, Receiver drop closes the channel (pending and later sends fail, buffered items are discarded), Sender drop lets the receiver drain the buffer and then return None; tokio::spawn runs the producer concurrently with the consumer (any interleaving)",
+        "harness/src/mocknode.rs: scripted CQL v4 server (independent frame codec); pages are served by position, the paging state presented with every EXECUTE is recorded; the session family answers the control connection's system.peers / system.local queries itself (schema fetch disabled)",
+        "ghost fields of the model state (taken, lost, ignored) are written but never read by the transitions",
+    ],
+    assumptions=[
+        "rows_exact: no attempt is answered with IgnoreWriteError (hypothesis `Attempt.ignore not in faults`; proved unnecessary for the single-connection pager: conn_rows_exact). For the session pagers an IgnoreWriteError decision on a page request ends the stream silently (pager.rs:220-226) - theorem ignore_truncates_silently; reachable only with a retry policy that ignores write errors and a server answering a read with a write error",
+        "the server answers the k-th successful fetch with the k-th scripted page (a deterministic function of the request number; the chain theorem shows the presented state is the one of page k-1, so a server keyed by state sees the same thing when states are distinct)",
+        "termination theorem: producer and consumer are scheduled in turn (round robin); for other fair schedules bounded_work + no_deadlock_reachable are the general statements",
+        "rows are well-formed and of the prepared statement's column type (per-page type check / row deserialization errors of TypedRowStream are not modelled)",
+    ],
+    partial=[
+        "unprepared session pager (Session::query_iter) and the control connection's own use of the pager are not driven separately (same PagingExecutor / SingleConnectionPagingExecutor code; the control connection's queries do run through the single-connection pager when the mock cluster session is built)",
+        "node switch between pages / retry on the next node (coordinator stability, pager.rs:337-365) needs a multi-node mock cluster: not in the differential run; speculative execution inside a page fetch is C13",
+        "client-side request timeout is exercised with real time on a few cases only (8+3 quick, 48+16 thorough)",
+        "metadata-id change between pages (SCYLLA_USE_METADATA_ID) and per-page type-check failures are not scripted",
+    ],
     shrink=dict(head_words=3, sep=" "),
-    chunk=450,
-)
-
-
-def _c14_out_kind(o):
-    if o in ("bad-case", "PANIC"):
-        return o
-    ks = []
-    for k, name in (("<unprepared", "unprepared"), ("meta+", "metadata-changed"), ("<rows:nometa", "cached-decode"), ("RepreparedIdChanged", "id-changed"),
-                    ("RepreparedIdMissingInBatch", "id-missing"), ("BATCH", "batch"), ("DbError:9472", "unprepared-visible"), ("r=ERR", "decode-error"), ("HANG", "HANG")):
-        if k in o:
-            ks.append(name)
-    return "+".join(ks) if ks else "plain"
-
-
-PROPS["C14"] = dict(
-    level_text="Theorems (Props/C14.lean) over a small-step model of the driver's prepared-statement handling (any number of callers sharing statement objects, any number of nodes, any interleaving of request building / node answering / response handling / node events, of any length). Driver part, for EVERY state and response, no assumption on the server: unprepared_transparent (first answer UNPREPARED => PREPARE of the same text to the same node; when its PREPARED answer with the same id arrives, the same EXECUTE - id, values, consistency, timestamp, page size, paging state; only skip flag / presented metadata id recomputed - to the same node; its answer is what the caller sees), reprepare_id_mismatch_is_error (+ batch form; nothing sent, nothing changed), execute_carries_statement_id (any EXECUTE put on the wire by any step carries the immutable id of its operation's statement object), batch_unknown_id_is_error, batch_known_id_reprepares_and_resends (identical frame), decode_metadata_used (server metadata if sent, else the metadata cached for this request = current metadata at build time, else empty), next_execution_presents_latest_id (incl. the zero-column rule: empty id + metadata requested), nonempty_never_replaced_by_empty, reprepare_ok (exact update rule), frame lemmas other_steps_keep_caller / statement_identity_immutable lifting them to all interleavings. End to end, by an invariant proved for all histories (inv_exec) under the explicit server assumption: decode_metadata_faithful (whenever a node with the extension omits the metadata, the metadata cached for that request has exactly the columns the node encodes the rows under) and noext_current_is_announced_at_preparation (without the extension the current metadata stays the one announced by the creating PREPARED). The model is tied to connection.rs / prepared.rs / result.rs by a differential run of the real Connection::{prepare, execute_raw_with_consistency, batch_with_consistency} against scripted CQL nodes under a deterministic frame-level scheduler (exhaustive sequential histories, node events inside an operation, random concurrent multi-node histories) with a model-independent oracle.",
-    level_note="Trusted: Lean kernel + {propext, Classical.choice, Quot.sound}; hand-written model Model/Prepared.lean (tie = differential harness through the cfg(scylla_verif) pass-through VerifConn). The ABSTRACT SERVER (Model/Prepared.lean `serve`/`applyEvent`, hypotheses NodeOK/EventOK: a node's result-metadata id determines its columns, ids are non-empty, metadata + new id sent iff the presented id differs, NO_METADATA iff skip requested) is an assumption about ScyllaDB, not proved; the driver theorems do not use it. Atomicity: one load of the shared metadata per request build, load+store per response handling are single steps (true on one thread; for concurrent stores the invariants only need that every stored value was announced). Not covered: timestamp generator draw (explicit statement timestamps are), tracing, tablets payload, the session-level caching layer, QueryPager (C07).",
-    lean_modules=["ScyllaVerif.Props.C14"],
-    rule="case = (nodes with/without the metadata-id extension, statements with their PREPARED announcement kind and initial columns, schedule of caller steps and node events); distinct case lines in which at least one request was answered by a node (a `<...` token in the output) count as non-trivial",
-    trivial=lambda c, o: "<" not in o,
-    out_kind=_c14_out_kind,
-    trusted=[
-        "Model/Prepared.lean transcribes connection.rs:645-743 (prepare_raw/prepare/reprepare), 938-972 (handle_result_metadata_new_id), 974-1044 (calculate_cached_metadata_params), 1046-1148 (execute_raw_with_consistency), 1177-1246 (batch_with_consistency loop), prepared.rs:211-280, 567-579 (shared immutable id/text, ArcSwap current metadata), result.rs:758-805, 810-852, 901-958, 1015-1053 (which metadata decodes the rows; METADATA_CHANGED honoured only with the extension; NO_METADATA+METADATA_CHANGED is a parse error)",
-        "harness/src/c14.rs: own scripted CQL v4 nodes (frame codec of harness/src/mocknode.rs, written from the spec), each caller on its own connections, every request held until the schedule lets the node consume it and every response held until the schedule delivers it; the server logic there (NodeState::answer) is written independently of the Lean `serve` and both are diffed",
-        "typed decoding of cells is modelled only as far as needed to make a wrong column set observable (int = 4 bytes, text = UTF-8; the node never sends 4-byte text cells); the value codec itself is C01",
-        "verif_hooks::connection::VerifConn (pass-through to the crate-private Connection methods; errors mapped to labels)",
-    ],
-    assumptions=[
-        "server assumption (see level_note) for decode_metadata_faithful / inv_exec; a node without the extension never sets METADATA_CHANGED and never sends a metadata id in PREPARED (wire well-formedness)",
-        "without the extension and with use_cached_result_metadata the driver decodes with the columns announced at the creating preparation even after a schema change / re-preparation (documented CQL v4 limitation, prepared.rs:167-198): the oracle there demands only that the columns used were announced by a server for that statement",
-        "a second UNPREPARED in a row (eviction between the re-preparation and the re-sent EXECUTE) is returned to the caller as DbError Unprepared: the EXECUTE path re-sends once (unprepared_transparent: the caller sees the second response); the BATCH path loops without bound",
-    ],
-    partial=[
-        "next_execution_presents_latest_id is a statement about the state right after the response was handled; with concurrent callers an OLDER response decoded with cached metadata and handled later re-installs the older metadata (handle_result_metadata_new_id compares the id of the metadata it decoded with, which may be the stale cached one) - decoding stays faithful (decode_metadata_faithful), the next EXECUTE presents the older id once more and is corrected by the server",
-        "the generator-drawn timestamp (no explicit statement timestamp) is not exercised: connections are opened without a timestamp generator",
-        "execute_iter / QueryPager is not driven here (paged execution = one EXECUTE per page with explicit paging state); the pager is C07",
-    ],
-    shrink=dict(head_words=3, sep=";"),
-    chunk=2500,
-)
-
-
-def _c20_out_kind(o):
-    if o.startswith(("ok ", "err ")) or o in ("ok", "race", "bad-case"):
-        return " ".join(o.split(" ")[:2]) if o.startswith("err") else o.split(" ")[0]
-    toks = o.split(";")
-    kinds = sorted({t.split(":")[0] + (":" + t.split(":")[1] if t.startswith("e:") else "") if t.startswith("e:") else t[:1] for t in toks})
-    return "pool " + "+".join(kinds)
-
-
-PROPS["C20"] = dict(
-    level_text="Theorems (Props/C20.lean, invariants in Proofs/Keyspace.lean) prove: name_valid_iff (VerifiedKeyspaceName::new accepts exactly the strings of 1..48 characters - counted with chars().count() - over [A-Za-z0-9_], ASCII only; empty / too long / illegal character are rejected in that order) and statement_shape (the statement is `USE name` or `USE \"name\"`, nothing else interpolated); the response-name check accepts exactly names equal up to ASCII case; use_keyspace_result answers Ok iff at least one Ok and only broken-connection errors besides (never swallows another error). For the pool refiller as a transition system over {current keyspace, published connections, open futures, setting-keyspace futures, excess, spawned use-keyspace tasks, the server-side keyspace of every connection} and EVERY sequence of events (use-keyspace request | a task's USE on a snapshot connection resolves with any server reply | task finishes | task times out | refill | connection opened on any shard / with any sharder | open failed | setting-keyspace future resolves with any reply | connection breaks | error event handled): publish_only_with_current_keyspace (a connection enters the published list only in a step in which the server has exactly the pool's current keyspace set on it; otherwise it is routed through the setting-keyspace path, where it is private: new_connection_private), published_has_keyspace (when no two requests overlapped and the newest was answered Ok - or with a broken-connection error - every published non-broken connection has that keyspace at the server, in every later state until the next request; the overlap hypothesis is shown necessary by a counterexample), published_has_initial_keyspace (pool created with the session keyspace, e.g. for a new node), success_means_all_acked and ok_answer_sound (no discipline assumed: an Ok answer means every then-published connection acknowledged the USE or is broken). For the cluster worker (requests, fan-out over the known nodes, deliveries to the refillers in any order, all pool events of all nodes, node addition/removal): cluster_pools_inv, new_nodes_inherit (a node created after the worker handled use_keyspace(k) gets a pool whose current keyspace is k), cluster_success_means_all_acked. The model is tied to connection.rs / connection_pool.rs / worker.rs by a differential run: name validation exhaustively over a 12-character alphabet to length 3, every code point to U+017F, boundary lengths with multi-byte characters and random names; one USE exchange on a real connection against a scripted node; a REAL NodeConnectionPool (refiller task included; PerHost(n) and PerShard(1) behind a shard-aware port) driven through scripted histories of use_keyspace calls, server-side connection kills, refills, rejected / mismatching / upper-cased / void / connection-closing USE answers and USE answers held at the node while the next request arrives, compared token by token with the model run to quiescence, with a model-independent oracle at the node.",
-    level_note="Trusted: Lean kernel + {propext, Classical.choice, Quot.sound}; hand-written model Model/Keyspace.lean (tie = differential harness through the cfg(scylla_verif) pass-throughs verify_keyspace_name / VerifConn / VerifPool and a scripted CQL node on a loopback socket). One atomic model event stands for submit+serve of a USE on a connection: connections are FIFO and the abstract server executes a connection's requests in order (so a USE left in flight by a timed-out call is served before any later one). The cluster-worker layer (Session::use_keyspace fan-out, use of node_config.used_keyspace for new nodes) is modelled and proved about, but tied to worker.rs / node.rs / session.rs only by reading (it needs a full Session). Partial: the cluster-level lifting of published_has_keyspace (no two fan-outs overlap => no two pool requests overlap) is stated but not proved; pool/caller scheduling is sampled by the `race` cases (multi-thread runtime, oracle only).",
-    lean_modules=["ScyllaVerif.Props.C20"],
-    rule="case = one candidate name (name), one USE exchange on a real connection (resp), one scripted history of a real connection pool against the scripted node (pool: deterministic, compared token by token; race: concurrent, judged by the oracle at the node only); distinct case lines count as non-trivial unless the output is bad-case or race",
-    trivial=lambda c, o: o in ("bad-case", "race"),
-    out_kind=_c20_out_kind,
-    trusted=[
-        "Model/Keyspace.lean transcribes connection.rs:2452-2511 (VerifiedKeyspaceName), 1296-1341 (use_keyspace, verify_use_keyspace_result), connection_pool.rs:632-741 (run: one select! arm = one event), 862-1035 (start_filling, handle_ready_connection), 1095-1125 (maybe_reshard), 1210-1275 (remove_connection), 1282-1358 (use_keyspace task, start_setting_keyspace_for_connection), cluster/worker.rs:348-390, 398-470, 767-797, cluster/node.rs:285-293",
-        "shared_conns = conns at event granularity (update_shared_conns runs in the same select! arm as every change of conns); PoolSize arithmetic (can_be_accepted, is_full, excess limit) is modelled, block_advanced_shard_awareness / metrics / connectivity events are not (no influence on keyspaces)",
-        "abstract server: executes the requests of one connection in order; `USE k` either sets k and says so (name equal up to ASCII case), sets another keyspace and says so, or fails leaving the keyspace unchanged; str::eq_ignore_ascii_case modelled on characters",
-        "the scripted node of harness/src/c20.rs (own accept loop, frame codec of mocknode.rs written from the protocol spec); a node-side `hold` of USE answers replaces timing in the deterministic pool cases",
-        "Drive/C20.lean runs the model to quiescence after each client step with a fixed schedule; the connection a query lands on (rand) is checked by membership; connection identities are compared up to symmetry (sorted USE histories)",
-    ],
-    assumptions=[
-        "published_has_keyspace: no use-keyspace request arrives at a pool while an earlier one is unanswered (ghost flag `overlap`; the documented usage of Session::use_keyspace); without it only success_means_all_acked holds - counterexample in Props/C20.lean",
-        "a broken connection stays broken (it is leaving the pool); requests routed to it fail, they do not run in another keyspace",
-    ],
-    partial=[
-        "cluster_published_has_keyspace (the per-pool theorem lifted through the fan-out: newest Session::use_keyspace answered Ok and no overlap => every published live connection of every known node has k) is stated in Props/C20.lean but not proved; proved instead: cluster_pools_inv, new_nodes_inherit, cluster_success_means_all_acked",
-        "the cluster worker / Session layer is tied to the code by reading only (no Session-level differential run)",
-        "the interleaving of the refiller with callers is a runtime schedule: the theorems cover all event orders of the model, the `pool` cases one canonical order each, the `race` cases sample real ones under the node-level oracle",
-    ],
-    shrink=dict(head_words=4, sep=";"),
-    chunk=1000,
-)
-
-
-def _c05_out_kind(o):
-    if not o.startswith("set="):
-        return o.split(" ", 1)[0]
-    w = o.split(" ")
-    n = 0 if w[0] == "set=-" else w[0].count(",") + 1
-    r = 0 if w[1] == "rep=-" else w[1].count(",") + 1
-    return "plan nodes=%s replicas=%s %s" % (n if n < 6 else "6+", r if r < 4 else "4+", "lwt" if w[2] != "lwt=x" else "non-lwt")
-
-
-PROPS["C05"] = dict(
-    level_text="Theorems (Props/C05.lean) prove, for every cluster (ring with vnodes and duplicate tokens, datacenters, racks, rack-less / datacenter-less nodes, keyspace strategies, every per-node enabled / connected assignment), every DefaultPolicy configuration (token-aware or not; preference none / datacenter / datacenter+rack / inherited from the request; failover permitted or not), every request (token or none, table / keyspace known or not, confirmed-LWT flag, every consistency, request-level preference) and ALL random choices of pick and of fallback (index draws of choose_filtered, rotation offsets, one shuffle per replica group - every permutation is reachable: shuffleWith_surjective): the plan names no host id twice (plan_nodup; so no target twice and no node both with and without a shard), no node rejected by the host filter (plan_excludes_disabled), only nodes of the preferred datacenter when failover is not permitted (plan_stays_in_dc), and every other enabled token-owning node (plan_complete); the class of the nodes - written out as a decision list (classOf_eq): live local-rack replica < live local-datacenter replica < live replica elsewhere < live local-rack node < live local node < live remote node < down-but-enabled local node < down-but-enabled remote node - never decreases along the plan (plan_order, plan_members_classified); the set of nodes does not depend on the random choices (targets_rho_independent); for a request routed as LWT (flag, or consistency SERIAL / LOCAL_SERIAL) the replicas of the plan are, for every random choice, exactly the de-duplicated ring-ordered replica lists (lwt_deterministic, lwt_fallback_deterministic) and each of those lists is a subsequence of the distinct nodes met clockwise from the token (lwt_ring_order); pick always answers a member of fallback of minimal class (pick_spec); the Created -> Picked -> Fallback state machine of Plan::next yields exactly the list the theorems talk about (plan_state_machine); unique_by under the non-transitive target comparator is first-occurrence-per-host-id on the chains the policy builds (fallback_eq_dedup). The model is tied to policies/load_balancing/{default,plan}.rs by a differential run through the public API (DefaultPolicy::builder, LoadBalancingPolicy::{pick,fallback}, Plan::new) on clusters built by ClusterState::new, 20-40 sampled plans per configuration, with a brute-force oracle written from the property statement.",
-    level_note="Trusted: Lean kernel + {propext, Classical.choice, Quot.sound}; hand-written model Model/Plan.lean on top of the C04 models (tie = differential harness; the thread RNG is not controlled, so the correspondence is MEMBERSHIP: the model prints the rho-independent node set / replica set / LWT replica order itself, compared exactly, and decides for every observed pick / fallback / plan whether some random choice of the model produces it - group by group: exact order, one of the rotations, or any permutation for a shuffled replica group). Latency awareness is off (not modelled). Hook nodes are pool-less: every shard is 0, only whether the policy supplied a shard is observed; with_random_shard_if_unknown is not modelled. WF hypothesis of the theorems: locator as ReplicaLocator::new builds it (ring sorted), NTS maps with distinct keys, distinct host ids in the ring.",
-    lean_modules=["ScyllaVerif.Props.C05"],
-    rule="case = (topology with per-node enabled/connected flags, keyspace strategies, policy configuration, request, number of sampled plans); distinct case lines whose plan is non-empty count as non-trivial",
-    trivial=lambda c, o: o.startswith("set=- ") or o in ("bad-case", "PANIC"),
-    out_kind=_c05_out_kind,
-    trusted=[
-        "Model/Plan.lean transcribes default.rs:145-316 (pick), 318-541 (fallback: the eight chained iterators, DefaultPolicyTargetComparator, unique_by), 580-618, 622-907 (routing_info, preferred_node_set, filtered_replicas, pick_replica / pick_first_replica / pick_random_replica, maybe_shuffled_replicas, randomly_rotated_nodes, pick_node, round_robin_nodes, shuffle, is_alive, is_datacenter_failover_possible), 1141-1172 (ProcessedRoutingInfo, TokenWithStrategy), plan.rs:8-157 (PlanState, Plan::next), mod.rs:24-99 (RoutingInfo, should_route_as_lwt), locator/mod.rs:316-331 (choose_filtered), cluster/node.rs:225-255 (is_connected / is_enabled: alive = enabled and connected)",
-        "itertools::unique_by keeps an element iff no kept element has an equal key (HashMap keyed by the comparator: Hash by host id, Eq by the comparator); rand: random_range(0..len) is some index < len, SliceRandom::shuffle some permutation, IteratorRandom::choose some element - all explicit arguments (RhoPick, RhoFb) over which the theorems quantify",
-        "fixed_seed (shuffling disabled) only determines WHICH random choices are made; it is exercised by the harness and covered by the quantification over all choices",
-        "Drive/C05.lean (checker mode) derives the admissible rotations / groups from the model's own fallbackGroups / pick evaluated at every offset; the replica placement inside it is the C04 model (Model/Replicas.lean), tied separately by C04's differential run",
-        "the harness oracle uses its own brute-force transcription of SimpleStrategy / NetworkTopologyStrategy placement (from the C04 property statement) and its own class function (coarser than classOf: replica rack / datacenter / remote, other live, down), independent of the Lean model",
-    ],
-    assumptions=[
-        "WF cl: cl.loc = locOf r S with r sorted by token (ReplicaLocator::new, C04.ring_sorted); NTS replication maps of the keyspaces have distinct datacenter keys (HashMap); ring nodes with equal host id are equal (known_nodes is keyed by host id) - all three are established by ClusterState::new and exhibited by a concrete example in Props/C05.lean",
-        "latency awareness disabled (pick_predicate = is_alive, no wrapping of the fallback iterator); no tablets (the hook's keyspaces are vnode based: C15/C12 cover tablets)",
-        "the code on the current tree has no consistency-dependent failover rule: is_datacenter_failover_possible = preferred datacenter set and permit_dc_failover; the model follows the code",
-    ],
-    partial=[
-        "targets_rho_independent is stated for the set of NODES (the shard marking of a node is determined by its class: plan_members_classified / the membership checker compares the marks on every run)",
-        "the random shard Plan substitutes for a missing one (with_random_shard_if_unknown) is not modelled: hook nodes have no sharder (C11/C12 cover shards)",
-        "the oracle's order classes are the coarse ones of the property statement; the finer order among non-replica live nodes (local rack < local < remote) and among down nodes is proved (plan_order) and checked by the membership checker, a violation there is reported as a model/implementation disagreement",
-    ],
-    shrink=dict(head_words=1, sep=";"),
-    chunk=1500,
-)
-
-PROPS["C10"] = dict(
-    level_text="Theorems (Props/C10.lean) prove for every reachable state of the connection model (every event history and in-flight set): once the router ends (reader I/O or header error, `Missing` lookup, writer error, orphan threshold, keep-alive timeout = the abstract event `break_`) no caller is left waiting - a registered one holds the connection error, a queued or parked one ChannelError; a request submitted afterwards fails immediately; nobody is handed a response after the break; a frame on a stream nobody waits on breaks the connection; and `cut_never_partial`: reading any prefix of any encoded response-frame sequence yields exactly the first n frames and then a cut-in-header / cut-in-body error unless the cut is on the boundary - never a truncated, foreign or bad-header result. Tied to the code by a differential run: `read_response_frame` over in-memory readers cut at every offset (plus garbage headers, bad versions, unknown opcodes), and the REAL router over an in-memory stream with N requests in flight and the faults FIN / garbage header / bad version / cut response stream at every offset / unsolicited stream id / silent stall with keep-alive on (tokio paused clock), with the oracle: every request completes, none hangs, no foreign or partial body, a later submit fails at once.",
-    level_note="Trusted: Lean kernel + {propext, Classical.choice, Quot.sound}; models Model/Conn.lean, Model/FrameStream.lean tied by the differential harness (hooks RawConnection). PARTIAL by nature: the theorems show the state machine leaves no waiter once the break event occurs; that the event occurs promptly in real time (tokio timers, OS socket errors such as RST, pool refill, retries elsewhere) is outside the model - the keep-alive timer is the abstract `break_ keepaliveTimeout` event, observed by the end-to-end run only under tokio's virtual clock (a test). Pool membership / retry policy are not modelled.",
-    lean_modules=["ScyllaVerif.Props.C10"],
-    rule="case = one cut byte stream (`frames`) or one fault schedule (`conn`, `ka`); distinct case lines whose implementation output is not the empty clean stream count as non-trivial",
-    trivial=lambda c, o: o == "- | clean",
-    out_kind=lambda o: ("broken:" + o.rsplit("broken=", 1)[1]) if "broken=" in o else ("frames:" + o.rsplit("| ", 1)[1].split(":")[0] if "| " in o else o[:12]),
-    trusted=[
-        "Model/FrameStream.lean transcribes scylla-cql/src/frame/mod.rs:142-190 (whole header first, then version / opcode validation, then exactly `length` body bytes)",
-        "Drive/C02.lean keepaliver mini-model (interval with MissedTickBehavior::Delay, tokio::time::timeout around send_request) - validated differentially under tokio's paused clock",
-        "RST and other OS-level socket errors are represented by the same reader/writer error path as FIN (`break_ frameHeaderParseError` / `writeError`)",
-    ],
-    assumptions=[],
-    partial=[
-        "promptness in real time, OS socket faults (RST), pool removal/refill and retry-elsewhere are observed only by the virtual-time end-to-end run or not at all; the theorem covers the state machine after the abstract break event",
-    ],
-    shrink=dict(head_words=2, sep=";"),
-    chunk=2000,
-)
-
-
-def _c17_out_kind(o):
-    if o.startswith("ok "):
-        return "ser ok"
-    if o == "ok":
-        return "tc ok"
-    if o.startswith("err tc ") or o.startswith("err ser "):
-        w = o.split(" ")
-        return "ser err " + w[1] + " " + w[2].split("/")[-1] + (" nested" if "/" in w[2] else "")
-    if o.startswith("err "):
-        return "tc err " + o.split(" ")[1].split("/")[-1] + (" nested" if "/" in o else "")
-    if " = cells=" in o:
-        return "row" + (" rollback" if "err(" in o else "") + (" toomany" if "toomany" in o else "")
-    return o[:16]
-
-
-PROPS["C17"] = dict(
-    level_text="(being built) Theorems (Props/C17.lean) over Model/Carrier.lean (acceptance relations carrier x column type for serialize and for type_check, serializers with the buffer threaded through also on failure) and Model/Row.lean (SerializedValues::add_value with rollback); differential run: ~100 concrete Rust carrier types x column types of nesting <= 2 for SerializeValue::serialize and DeserializeValue::type_check, row-level type_check, add_value sequences with failing values of every kind.",
-    level_note="Trusted: Lean kernel + {propext, Classical.choice, Quot.sound}; hand-written models Model/Carrier.lean, Model/Row.lean tied by the differential harness (public API of scylla-cql-core).",
-    lean_modules=["ScyllaVerif.Props.C17"],
-    rule="case = (Rust carrier type, representative value, column type) for serialize / type_check, or one add_value sequence; distinct case lines count as non-trivial unless the output is bad-case",
-    trivial=lambda c, o: o.startswith("bad-case"),
-    out_kind=_c17_out_kind,
-    trusted=[],
-    assumptions=[],
-    partial=[],
-    shrink=dict(head_words=1, sep=" ; "),
-    chunk=20000,
+    chunk=900,
 )
